@@ -20,7 +20,10 @@ RULE = ("a case is one program of the enumerated catalogue (sim/vprog): one publ
         "{0,1,70} with a tail id far beyond the order) x argument class (in-range, order, order+1, 2^40, usize::MAX; huge orders for O(1) constructors; user "
         "callback / iterator panicking at its 1st or 2nd call), the threaded operations at 1..4 simulated CPUs; plus 2 160 "
         "generated call sequences (start shape, 2-5 seeded mutations / whole-digraph operations / filters / conversions with "
-        "ids of every class, then a traversal, algorithm or query), each step under catch_unwind. Lane U "
+        "ids of every class, then a traversal, algorithm or query), each step under catch_unwind; plus 3 240 generated "
+        "structures (DAGs, chains of strong components, long paths / cycles up to order 70, stars, layered digraphs, "
+        "unreachable parts, zero and negative weights with and without negative circuits) under every traversal and "
+        "algorithm the representation supports, from 0..5 in-range sources. Lane U "
         "executes it under Miri (any diagnostic is a violation; a Rust panic or any return value is acceptable), lane L "
         "executes it three times natively under the allocation ledger. Non-trivial = the argument is outside the digraph, "
         "or a callback panics, or >= 2 simulated CPUs, or the digraph is non-contiguous; distinct = distinct program "
@@ -29,7 +32,7 @@ RULE = ("a case is one program of the enumerated catalogue (sim/vprog): one publ
 
 def nontrivial(name):
     entry, rep, shape, x, y, cb, t = name.split("/")
-    if entry == "seq":
+    if entry in M.GENERATED:
         return True
     return x not in ("in0", "inlast") or y not in ("in0", "inlast") or cb != "cb0" or t not in ("t0", "t1") \
         or shape.startswith("map")
